@@ -125,8 +125,13 @@ class Machine:
                 drv.on_call(name, tag, kw)
 
         def mkfn(name, params, tag):
+            # (in every fourth machine the last argument of each state function has a default value, which the machine
+            #  must never leave in place: "def s(self, tm, initial_call=False)")
+            decl = ["%s" % p for p in params]
+            if decl and uid % 4 == 2:
+                decl[-1] += "=-77"
             src = "def %s(self%s):\n    _rec(self, %r, %r, dict(%s))\n" % (
-                name, "".join(", " + p for p in params), name, tag,
+                name, "".join(", " + p for p in decl), name, tag,
                 ", ".join("%s=%s" % (p, p) for p in params))
             ns = {"_rec": _rec}
             exec(src, ns)
@@ -366,7 +371,7 @@ class Machine:
         elif k in ("disable", "adisable"):
             sm.on_disable()
             self.emit(ev)
-        elif k == "aenable":
+        elif k in ("aenable", "enable"):
             sm.on_enable()
             self.emit(ev)
         elif k == "tick":
@@ -473,6 +478,8 @@ class RandomSource:
                 yield {"e": "done"}
             elif r < p_eng + 0.09:
                 yield {"e": "disable"}
+            elif r < p_eng + 0.11:
+                yield {"e": "enable"}          # the robot enters an enabled mode: on_enable() of a plain machine does nothing
             elif r < p_eng + 0.30:
                 yield {"e": "tick", "d": rng.choice([0, 1, 1, 2, 3, 5, 8, 13, 40])}
             elif r < p_eng + 0.34 and self.timed:
@@ -488,6 +495,8 @@ class RandomSource:
             self.dnth = getattr(self, "dnth", 0) + 1
             if self.style == "idle" and rng.random() < 0.3:
                 return {"e": "ns", "s": rng.choice(self.mfs)}
+            if rng.random() < 0.04 and not self.shape["auto"]:
+                return {"e": "engage", "init": "none", "force": False}      # the default state asks for the machine itself
             if rng.random() < 0.12 and self.nondef:
                 return {"e": "ns", "s": rng.choice(self.nondef)}
             return None
